@@ -176,6 +176,8 @@ def dispatch(it, body, st, t, fn, args, depth):
                 raise NeedFork(("bool", key))
             if st.bools[key] and p.single_symbol():
                 st.substitute(p.single_symbol(), Poly.const(1))
+            if not st.bools[key]:
+                st.nzp.add(repr(p - 1))
             return ret(st, BOOL(st.bools[key]))
     if name in ("is_negative", "is_positive") and len(args) == 1:
         v = it.deref_all(st, args[0])
